@@ -32,7 +32,7 @@ for a, b in (("-links", "-inum"), ("-uid", "-inum"), ("-gid", "-inum"), ("-mtime
 NEWER_OK = ["-newer", "-newermm", "-neweram", "-anewer"]
 NEWER_JUNK = ["-newermmx", "-xnewermm", "-newerzz", "-newerm", "--newermm"]
 PRIMS = ["-type", "-xtype", "-size", "-inum", "-links", "-uid", "-mtime", "-mmin", "-maxdepth", "-mindepth", "-regextype", "-printf"] + NEWER_OK
-OPERANDS = ["f", "d", "q", "", "ff", "5", "+5", "-5", "5k", "+5M", "5x", "x5k", "5kk", "+", "99999999999999999999", "18446744073709551615", "x",
+OPERANDS = ["f", "d", "q", "", "ff", "5", "+5", "-5", "++5", "-+5", "5k", "+5M", "5x", "x5k", "5kk", "+", "99999999999999999999", "18446744073709551615", "x",
             "emacs", "posix-extended", "sed", "bogus", "%p\\n", "%", "a\\", "%%", "ref"]
 OTHERS = ["-print", "!", "-o", "(", ")"]
 
@@ -139,9 +139,18 @@ def natives():
         if re.fullmatch(r"\+?[0-9]+", s) and int(s) < 2 ** 64:
             return Ok(int(s))
         return Err(Opaque("ParseIntError"))
+    def parse_signed(m, args, bits):
+        s = text_of(m, args[0])
+        if re.fullmatch(r"[+-]?[0-9]+", s) and -(2 ** (bits - 1)) <= int(s) < 2 ** (bits - 1):
+            return Ok(int(s))
+        return Err(Opaque("ParseIntError"))
+
     def parse_model(m, args, raw):
         if re.search(r"parse::<(u64|usize|u32)>$", raw):
             return parse_int(m, args)
+        ms = re.search(r"parse::<i(8|16|32|64|128|size)>$", raw)
+        if ms:
+            return parse_signed(m, args, 64 if ms.group(1) == "size" else int(ms.group(1)))
         ty = re.search(r"parse::<(.*)>$", raw).group(1).split("::")[-1]
         return m.call("<%s as FromStr>::from_str" % ty, [RStr(text_of(m, args[0]))])
     models.EXACT["str::parse"] = parse_model
@@ -203,7 +212,7 @@ def explore(n, funcs, index, enums, vocab):
     return res
 
 
-VALUE_WORDS = ["0", "+0", "-0", "5", "+5", "-5", "007", "+18446744073709551615", "-18446744073709551615", "18446744073709551616", "5k", "+5M", "-1G", "3c", "2w", "1b", "", "+", "k", "5 ", " 5"]
+VALUE_WORDS = ["0", "+0", "-0", "5", "+5", "-5", "007", "+18446744073709551615", "-18446744073709551615", "18446744073709551616", "5k", "+5M", "-1G", "3c", "2w", "1b", "", "+", "k", "5 ", " 5", "++5", "-+5", "+-5", "--5", "+5+", "-+5k"]
 
 
 def explore_values(funcs, index, enums):
